@@ -707,6 +707,69 @@ def translate_command_step(tree, handlers, params_of):
     return "\n".join(lines) + "\n"
 
 
+def translate_change_user(tree):
+    """`Connection.handle_change_user`: the wrapper around `_change_user` that turns every failure into `AuthenticationFailed`,
+    read off its AST (exactly the statement forms it consists of today; anything else is an extraction error):
+
+        try: await self._change_user(data)
+        except AuthenticationFailed: raise
+        except Exception as e: [logger...]; if isinstance(e, MysqlError): await self.stream.write(self.error(...)) else: await
+            self.stream.write(self.error(...)); raise AuthenticationFailed() from e
+        await self.session.reset()
+
+    `_change_user` (packet parsing, session variables, the authentication exchange: C01 / C02's subject) is the parameter
+    `change_user : Connection S → Bytes → CUOut S` with its three possible outcomes."""
+    cls = next(n for n in tree.body if isinstance(n, ast.ClassDef) and n.name == "Connection")
+    f = next(n for n in cls.body if isinstance(n, ast.AsyncFunctionDef) and n.name == "handle_change_user")
+    bad = Untranslatable("handle_change_user no longer has the shape the translation reads")
+    body = [st for st in f.body if not (isinstance(st, ast.Expr) and isinstance(st.value, ast.Constant))]
+    if len(body) != 2 or not isinstance(body[0], ast.Try) or ast.unparse(body[1]) != "await self.session.reset()":
+        raise bad
+    tr = body[0]
+    if [ast.unparse(x) for x in tr.body] != ["await self._change_user(data)"] or tr.orelse or tr.finalbody or len(tr.handlers) != 2:
+        raise bad
+    h1, h2 = tr.handlers
+    if ast.unparse(h1.type) != "AuthenticationFailed" or [ast.unparse(x) for x in h1.body] != ["raise"]:
+        raise bad
+    if ast.unparse(h2.type) != "Exception":
+        raise bad
+    stmts = [st for st in h2.body if not (isinstance(st, ast.Expr) and isinstance(st.value, ast.Call) and ast.unparse(st.value.func).startswith("logger."))]
+
+    def is_write_error(st):
+        return (isinstance(st, ast.Expr) and isinstance(st.value, ast.Await) and isinstance(st.value.value, ast.Call)
+                and ast.unparse(st.value.value.func) == "self.stream.write" and len(st.value.value.args) == 1 and not st.value.value.keywords
+                and isinstance(st.value.value.args[0], ast.Call) and ast.unparse(st.value.value.args[0].func) == "self.error")
+    if len(stmts) != 2 or not isinstance(stmts[0], ast.If) or ast.unparse(stmts[0].test) != "isinstance(e, MysqlError)" \
+            or len(stmts[0].body) != 1 or len(stmts[0].orelse) != 1 or not is_write_error(stmts[0].body[0]) or not is_write_error(stmts[0].orelse[0]) \
+            or not isinstance(stmts[1], ast.Raise) or not ast.unparse(stmts[1].exc).startswith("AuthenticationFailed("):
+        raise bad
+    return """/-- how `_change_user` (not translated: parsing of the packet, session variables, the authentication exchange) can end -/
+inductive CUOut (S : Type) where
+  | returned (s : Connection S)      -- the exchange succeeded
+  | authfail (s : Connection S)      -- raised AuthenticationFailed (the ERR was written by the exchange)
+  | raised (s : Connection S)        -- raised anything else
+
+/-- **`Connection.handle_change_user`**: `(state, true)` = returned (after `session.reset()`), `(state, false)` = raised
+    `AuthenticationFailed` — the only exception that leaves it: every other failure of `_change_user` is answered with exactly one
+    ERR (drained) and converted -/
+def handle_change_user (change_user : Connection S → Bytes → CUOut S) (error_packet : Connection S → Bytes) (self : (Connection S)) (data : Bytes) : (Connection S) × Bool :=
+  match change_user self data with
+  | .returned s => ({ s with out := s.out ++ [Ev.session_reset] }, true)
+  | .authfail s => (s, false)
+  | .raised s => ({ s with out := s.out ++ [Ev.write (error_packet s) true] }, false)
+
+/-- the two views of `handle_change_user` that `command_step` takes of an untranslated handler -/
+def change_user_other (change_user : Connection S → Bytes → CUOut S) (error_packet : Connection S → Bytes) : Nat → Connection S → Bytes → Except (Connection S) (Connection S) :=
+  fun _ self data => .ok (handle_change_user change_user error_packet self data).1
+
+def change_user_auth_failed (change_user : Connection S → Bytes → CUOut S) (error_packet : Connection S → Bytes) : Nat → Connection S → Bytes → Option (Connection S) :=
+  fun _ self data =>
+    match handle_change_user change_user error_packet self data with
+    | (_, true) => none
+    | (s, false) => some s
+"""
+
+
 def translate_server_cb():
     """→ Lean source of namespace Mimic.Extracted.ServerCode: `MysqlServer._client_connected_cb` as a function of the outcomes of
     the three things it calls (session factory + Connection constructor, `control.add`, `connection.start`), returning the
@@ -962,6 +1025,7 @@ def translate_handlers():
                     ty = "Env S" if n == "E" else dict(pure.extra_params)[n]
                     allparams.append((n, ty))
     out.append(translate_command_step(pure.tree, handler_calls, {"__all__": allparams}))
+    out.append(translate_change_user(pure.tree))
     out.append("def translated : List String := [%s]" % ", ".join('"%s"' % n for n in (
         "Connection.ok", "Connection.eof", "Connection.deprecate_eof", "Connection.ok_or_eof", "Connection.get_stmt",
         "Connection.com_stmt_prepare_response", "Connection.handle_stmt_prepare", "Connection.handle_stmt_execute", "Connection.handle_query", "Connection.text_resultset", "Connection.handle_ping",
